@@ -122,6 +122,19 @@ def import_closure(pid):
     return seen
 
 
+def leanchecker(pid):
+    """thorough tier: independent re-check of the compiled modules this property rests on"""
+    mods = []
+    for path in import_closure(pid):
+        rel = os.path.relpath(path, LEAN)[:-len(".lean")]
+        mods.append(rel.replace(os.sep, "."))
+    if not mods:
+        return {"ran": False}
+    t0 = time.time()
+    rc, out = sh(["lake", "env", "leanchecker"] + mods, cwd=LEAN, timeout=7200)
+    return {"ran": True, "modules": len(mods), "rc": rc, "wall_s": round(time.time() - t0, 1), "output": out.strip()[-500:]}
+
+
 def source_scan(pid):
     """no sorry / admit / axiom / native_decide / … in the Lean sources this property rests on (comments excluded)"""
     bad = []
@@ -323,6 +336,12 @@ def decide(pid, cfg, tier, seed, t0):
         p_ok = False
         p_err += "\nforbidden constructs: " + "; ".join(scan[:5])
     axioms_used = sorted({a for _, (_, axs) in audit.items() for a in axs if not a.startswith("<")})
+    if tier == "thorough" and theorems and p_ok:
+        lc = leanchecker(pid)
+        coverage_extra["leanchecker"] = lc
+        if lc.get("ran") and lc.get("rc") != 0:
+            p_ok = False
+            p_err += "\nleanchecker rejected the compiled modules: " + lc.get("output", "")
 
     tally = Tally()
     ok, walls = run_groups(pid, cfg, tier, seed, tally, cfg.get("flavour", "release"))
